@@ -65,7 +65,7 @@ class HostileMonitor(Monitor):
 class C11(UdpCheck):
     pid = "C11"
     budget = {"quick": 75, "thorough": 900}
-    ncases = {"quick": 360, "thorough": 12000}
+    ncases = {"quick": 300, "thorough": 12000}
     rule = ("case = honest echo clients (guaranteed message every 0.25 s, echoed guaranteed by the server application) while "
             "the attacker delivers, through TwistedServer.datagramReceived or the _UdpServer receive loop, bulk hostile "
             "datagrams: random bytes of every length up to the receive size, valid magic + random rest, valid header + random "
